@@ -480,6 +480,40 @@ pub fn tweak(r: &mut Rng, x: &J, keys: &[&str]) -> J {
     }
 }
 
+/// A re-rendering that must not change the inferred shape: other scalars of the same kind, other
+/// lexical forms, shuffled members, same-shaped elements repeated, different whitespace.
+pub fn rerender(r: &mut Rng, x: &J) -> J {
+    match x {
+        J::Null => J::Null,
+        J::Bool(_) => J::Bool(r.chance(1, 2)),
+        J::Num(_) => J::Num(r.pick(NUMS).to_string()),
+        J::Str(_) => J::Str(r.pick(STRS).to_string()),
+        J::Arr(xs) => {
+            let mut v: Vec<J> = xs.iter().map(|y| rerender(r, y)).collect();
+            // repeat a same-shaped element when the array is homogeneous (all elements one shape)
+            if !xs.is_empty() && r.chance(1, 3) {
+                use std::str::FromStr;
+                let shapes: Vec<_> = xs.iter().map(|y| JsonShape::from_str(&y.render(0))).collect();
+                if shapes.iter().all(|s| s.is_ok() && *s == shapes[0]) {
+                    let extra = rerender(r, &xs[0]);
+                    v.push(extra);
+                }
+            }
+            J::Arr(v)
+        }
+        J::Obj(ms) => {
+            let mut v: Vec<(String, J)> = ms.iter().map(|(k, y)| (k.clone(), rerender(r, y))).collect();
+            if r.chance(1, 2) {
+                v.reverse();
+            }
+            if v.len() > 2 && r.chance(1, 2) {
+                v.swap(0, 1);
+            }
+            J::Obj(v)
+        }
+    }
+}
+
 pub fn hex_doc(d: &J, style: usize) -> String {
     hex(d.render(style).as_bytes())
 }
